@@ -3,6 +3,7 @@
 import importlib, json, os, subprocess, sys
 ROOT = os.path.dirname(os.path.dirname(os.path.abspath(__file__)))
 sys.path.insert(0, ROOT)
+from checks import kernel
 props = [json.loads(l) for l in open(os.path.join(ROOT, "properties.jsonl"))]
 PENDING = json.load(open(os.path.join(ROOT, "tools", "not_applicable.json")))
 READY = json.load(open(os.path.join(ROOT, "tools", "ready.json")))   # properties whose check the lead has accepted
@@ -23,7 +24,7 @@ for p in props:
         "engine": "+".join(cfg.harness_pkg) if isinstance(getattr(cfg, "harness_pkg", ""), list) else (getattr(cfg, "harness_pkg", "") or ""),
         "level_claimed": {"category": "proof", "text": cfg.level_text, "design_ref": cfg.design_ref},
         "level_note": cfg.level_note,
-        "technique": cfg.technique,
+        "technique": cfg.technique + kernel.technique(pid),
     })
 hooks_commits = subprocess.run(["git", "-C", "/repo", "log", "--format=%h %s", "--grep=^verif hook"],
                                stdout=subprocess.PIPE, text=True).stdout.strip().split("\n")
